@@ -29,7 +29,7 @@ func (b BoolSchema) Unserialize(data any) (any, error) {
 		case 0:
 			return false, nil
 		default:
-			return false, fmt.Errorf("'%d' is not a valid boolean value", data)
+			return false, &ConstraintError{Message: fmt.Sprintf("'%d' is not a valid boolean value", data)}
 		}
 	}
 	switch v := data.(type) {
@@ -63,7 +63,7 @@ func (b BoolSchema) Unserialize(data any) (any, error) {
 	case uint8:
 		return intConverter(int64(v))
 	}
-	return false, fmt.Errorf("'%v' is not a valid boolean value", data)
+	return false, &ConstraintError{Message: fmt.Sprintf("'%v' is not a valid boolean value", data)}
 }
 
 func (b BoolSchema) UnserializeType(data any) (bool, error) {
